@@ -221,6 +221,10 @@ func TestPropSessions(t *testing.T) {
 			}
 			c.Bursts = append(c.Bursts, b)
 		}
+		// every session also has bursts that change static text only: the program keeps running and
+		// has to notice the new text file by itself
+		c.Bursts = append([][]Save{{{File: 0, Kind: "text"}}}, c.Bursts...)
+		c.Bursts = append(c.Bursts, []Save{{File: c.Files - 1, Kind: "text"}, {File: 0, Kind: "text", GapMs: 5}})
 		recSession.Eval(len(c.Bursts))
 		if mixed {
 			recSession.NonTrivial(fmt.Sprint(c), func() any { return c })
